@@ -8,16 +8,16 @@ import ChessVerif.Proofs.SearchScoreLaws
 namespace ChessVerif
 namespace Search
 
-variable {σ π : Type} [PsInv σ]
+variable {σ π : Type} [PsInv σ] {t0 : Bool}
 
 /-- what a quiescence-like function guarantees about scores (on `Good` boards, plies that cannot
     wrap the int8 counter, workable windows, sound tables) — guarded by the ghost flag: the window
     and table hypotheses are needed only while `nmpOut = false`, the conclusions hold when the state
     returned has `nmpOut = false`. -/
-def QRange (Good : Board → Prop) (TTok : σ → Prop) (μ : Board → Nat)
+def QRange (Good : Board → Prop) (TTok : σ → Prop) (t0 : Bool) (μ : Board → Nat)
     (child : Score → Score → Int → St σ → Score × St σ) : Prop :=
-  ∀ a b p s, Good s.board → 0 ≤ p → p + (μ s.board : Int) ≤ 111 → (s.nmpOut = false → WinOK a b) → TTA TTok s →
-    TTA TTok (child a b p s).2 ∧
+  ∀ a b p s, Good s.board → 0 ≤ p → p + (μ s.board : Int) ≤ 111 → (s.nmpOut = false → WinOK a b) → TTA TTok t0 s →
+    TTA TTok t0 (child a b p s).2 ∧
       ((child a b p s).2.aborted = false → (child a b p s).2.nmpOut = false → RelP p (child a b p s).1)
 
 /-- the running values of the quiescence loop stay workable. -/
@@ -25,21 +25,22 @@ def QInv (ply : Int) (l : QLoop) : Prop := -32767 ≤ l.alpha ∧ l.alpha ≤ 10
 
 theorem qAfter_range (c : Comp σ π) (L : Limits) {Good : Board → Prop} {TTok : σ → Prop} {μ : Board → Nat}
     (hlw : Laws c Good) (sl : ScoreLaws c Good TTok μ) (beta : Score) (ply : Int) (m : Move) (r : Board.Reverse)
-    (l : QLoop) (v : Score) (s : St σ) (hp0 : 0 ≤ ply) (hp1 : ply ≤ 126) (htt : TTA TTok s)
+    (l : QLoop) (v : Score) (s : St σ) (hp0 : 0 ≤ ply) (hp1 : ply ≤ 126) (htt : TTA TTok t0 s)
     (hgb : Good (s.board.undoMove m r)) (hmb : m ∈ MoveGen.gen (s.board.undoMove m r))
     (hv : s.aborted = false → s.nmpOut = false → RelP (ply + 1) v) (hl : s.nmpOut = false → QInv ply l) :
     let o := qAfter c L beta ply m r l v s
-    TTA TTok o.2 ∧ (∀ x, o.1 = .ret x → o.2.aborted = false → o.2.nmpOut = false → RelP ply x) ∧
+    TTA TTok t0 o.2 ∧ (∀ x, o.1 = .ret x → o.2.aborted = false → o.2.nmpOut = false → RelP ply x) ∧
       (∀ l', o.1 = .cont l' → o.2.nmpOut = false → QInv ply l') := by
   simp only [qAfter]
   have hps := abort_ps L (s.setBoard (s.board.undoMove m r))
   have han : (abort L (s.setBoard (s.board.undoMove m r))).2.nmpOut = s.nmpOut := abort_nmpOut L _
+  have hatt : (abort L (s.setBoard (s.board.undoMove m r))).2.ttOut = s.ttOut := abort_ttOut L _
   have hfa := @abort_false σ _ L (s.setBoard (s.board.undoMove m r))
   have hat := abort_true_iff L (s.setBoard (s.board.undoMove m r))
   have hbd : (abort L (s.setBoard (s.board.undoMove m r))).2.board = s.board.undoMove m r :=
     (abort_frame L (s.setBoard (s.board.undoMove m r))).board
-  generalize abort L (s.setBoard (s.board.undoMove m r)) = as at hps han hfa hat hbd ⊢
-  have htt' : TTA TTok as.2 := htt.congr hps han
+  generalize abort L (s.setBoard (s.board.undoMove m r)) = as at hps han hatt hfa hat hbd ⊢
+  have htt' : TTA TTok t0 as.2 := htt.congr hps han hatt
   split
   · next hab =>
     refine ⟨htt', fun x _ hna => ?_, (fun l' h => by cases h)⟩
@@ -52,8 +53,10 @@ theorem qAfter_range (c : Comp σ π) (L : Limits) {Good : Board → Prop} {TTok
     · refine ⟨⟨hlw.ok_store _ _ _ _ _ _ _ htt'.1 (by rw [hbd]; exact hgb) (Or.inr (by rw [hbd]; exact hmb)), fun hA => ?_⟩,
         fun x hx _ hA => ?_, (fun l' h => by cases h)⟩
       · have hA' : as.2.nmpOut = false := hA
-        exact sl.tt_store _ _ _ _ _ _ _ (htt'.2 hA') hp0 (by omega) (hvp (by rw [← han]; exact hA'))
-          (hlw.ok_store _ _ _ _ _ _ _ htt'.1 (by rw [hbd]; exact hgb) (Or.inr (by rw [hbd]; exact hmb)))
+        have hrel := hvp (by rw [← han]; exact hA')
+        exact ⟨sl.tt_store _ _ _ _ _ _ _ (htt'.2 hA').1 hp0 (by omega) hrel
+          (hlw.ok_store _ _ _ _ _ _ _ htt'.1 (by rw [hbd]; exact hgb) (Or.inr (by rw [hbd]; exact hmb))),
+          fun ht => flagTT_keep ((htt'.2 hA').2 ht) (not_bad_of_relP hrel)⟩
       · cases hx
         have hA' : as.2.nmpOut = false := hA
         exact hvp (by rw [← han]; exact hA')
@@ -67,14 +70,14 @@ theorem qAfter_range (c : Comp σ π) (L : Limits) {Good : Board → Prop} {TTok
 
 theorem qLoop_range (c : Comp σ π) (L : Limits) {Good : Board → Prop} {TTok : σ → Prop} {μ : Board → Nat}
     (hl : Laws c Good) (sl : ScoreLaws c Good TTok μ)
-    (child : Score → Score → Int → St σ → Score × St σ) (hc : QSpec L Good child) (hr : QRange Good TTok μ child)
+    (child : Score → Score → Int → St σ → Score × St σ) (hc : QSpec L Good child) (hr : QRange Good TTok t0 μ child)
     (beta sp : Score) (ply : Int) (hp0 : 0 ≤ ply) :
     ∀ (moves : List (Move × Score)) (l : QLoop) (s : St σ), Good s.board → s.board.fifty < 100 →
       (∀ mw ∈ moves, mw.1 ∈ MoveGen.gen s.board ∧ μ (s.board.makeMove c.keys mw.1).1 < μ s.board) →
-      ply + (μ s.board : Int) ≤ 111 → TTA TTok s →
+      ply + (μ s.board : Int) ≤ 111 → TTA TTok t0 s →
       (s.nmpOut = false → -10000 ≤ beta ∧ beta ≤ 32767 ∧ QInv ply l) →
       let o := qLoop c L child beta sp ply moves l s
-      TTA TTok o.2 ∧ (∀ x, o.1 = .ret x → o.2.aborted = false → o.2.nmpOut = false → RelP ply x) ∧
+      TTA TTok t0 o.2 ∧ (∀ x, o.1 = .ret x → o.2.aborted = false → o.2.nmpOut = false → RelP ply x) ∧
         (∀ l', o.1 = .done l' → o.2.nmpOut = false → QInv ply l') := by
   intro moves
   induction moves with
@@ -89,7 +92,7 @@ theorem qLoop_range (c : Comp σ π) (L : Limits) {Good : Board → Prop} {TTok 
     have hrest : ∀ mw ∈ rest, mw.1 ∈ MoveGen.gen s.board ∧ μ (s.board.makeMove c.keys mw.1).1 < μ s.board :=
       fun mw h => hm mw (List.mem_cons_of_mem _ h)
     have hu := hl.undo_make s.board m hg hmem
-    have hdone : TTA TTok s ∧ (∀ x, (Flow.done l : Flow QLoop) = .ret x → s.aborted = false → s.nmpOut = false → RelP ply x) ∧
+    have hdone : TTA TTok t0 s ∧ (∀ x, (Flow.done l : Flow QLoop) = .ret x → s.aborted = false → s.nmpOut = false → RelP ply x) ∧
         (∀ l', (Flow.done l : Flow QLoop) = .done l' → s.nmpOut = false → QInv ply l') :=
       ⟨htt, (fun x h => by cases h), fun l' h hA => by cases h; exact (hq hA).2.2⟩
     simp only [qLoop]
@@ -151,18 +154,18 @@ theorem ttCut_relP {ply : Int} {e : TTHit} {a b v : Score} (he : RelP ply e.valu
 
 theorem qBody_range (c : Comp σ π) (L : Limits) {Good : Board → Prop} {TTok : σ → Prop} {μ : Board → Nat}
     (hl : Laws c Good) (sl : ScoreLaws c Good TTok μ)
-    (child : Score → Score → Int → St σ → Score × St σ) (hc : QSpec L Good child) (hr : QRange Good TTok μ child)
+    (child : Score → Score → Int → St σ → Score × St σ) (hc : QSpec L Good child) (hr : QRange Good TTok t0 μ child)
     (alpha beta : Score) (ply : Int) (hp0 : 0 ≤ ply) (s : St σ) (hw : s.nmpOut = false → WinOK alpha beta)
     (hg : Good s.board)
-    (hfl : s.board.fifty < 100) (hpl : ply + (μ s.board : Int) ≤ 111) (htt : TTA TTok s) :
+    (hfl : s.board.fifty < 100) (hpl : ply + (μ s.board : Int) ≤ 111) (htt : TTA TTok t0 s) :
     let o := qBody c L child alpha beta ply s
-    TTA TTok o.2 ∧ (o.2.aborted = false → o.2.nmpOut = false → RelP ply o.1) := by
+    TTA TTok t0 o.2 ∧ (o.2.aborted = false → o.2.nmpOut = false → RelP ply o.1) := by
   simp only [qBody]
   split
   · next v hcut =>
     refine ⟨htt, fun _ hA => ?_⟩
     split at hcut
-    · next e he => exact ttCut_relP (sl.tt_probe _ _ _ _ (htt.2 hA) hp0 (by omega) he) hcut
+    · next e he => exact ttCut_relP (sl.tt_probe _ _ _ _ (htt.2 hA).1 hp0 (by omega) he) hcut
     · cases hcut
   · split
     · exact ⟨htt, fun _ _ => relP_mate hp0 (by omega)⟩
@@ -199,11 +202,12 @@ theorem qBody_range (c : Comp σ π) (L : Limits) {Good : Board → Prop} {TTok 
             have hok' := hl.ok_store s'.popFrame.ps s'.popFrame.board 0 ply 0 l'.maxim .upper htt'.1 hqs (Or.inl rfl)
             refine ⟨⟨hok', fun hA => ?_⟩, fun _ hA => (hdone l' rfl hA).2.2⟩
             have hA' : s'.nmpOut = false := hA
-            exact sl.tt_store _ _ _ _ _ _ _ (htt'.2 hA') hp0 (by omega) (hdone l' rfl hA').2.2 hok'
+            exact ⟨sl.tt_store _ _ _ _ _ _ _ (htt'.2 hA').1 hp0 (by omega) (hdone l' rfl hA').2.2 hok',
+              fun ht => flagTT_keep ((htt'.2 hA').2 ht) (not_bad_of_relP (hdone l' rfl hA').2.2)⟩
 
 theorem quiescence_range (c : Comp σ π) (L : Limits) {Good : Board → Prop} {TTok : σ → Prop} {μ : Board → Nat}
     (hl : Laws c Good) (sl : ScoreLaws c Good TTok μ) (fuel : Nat) :
-    QRange Good TTok μ (quiescence c L fuel) := by
+    QRange Good TTok t0 μ (quiescence c L fuel) := by
   induction fuel with
   | zero => intro a b p s _ _ _ _ htt; exact ⟨htt, fun h => by cases h⟩
   | succ fuel ih =>
@@ -214,10 +218,12 @@ theorem quiescence_range (c : Comp σ π) (L : Limits) {Good : Board → Prop} {
     have hps : (abort L (incrementNodes L s)).2.ps = s.ps := (abort_ps L _).trans (incrementNodes_ps L s)
     have han : (abort L (incrementNodes L s)).2.nmpOut = s.nmpOut :=
       (abort_nmpOut L _).trans (incrementNodes_nmpOut L s)
+    have hatt : (abort L (incrementNodes L s)).2.ttOut = s.ttOut :=
+      (abort_ttOut L _).trans (incrementNodes_ttOut L s)
     have h12 := h1.trans h2
     have hat := abort_true_iff L (incrementNodes L s)
-    generalize abort L (incrementNodes L s) = as at h12 hps han hat ⊢
-    have htt' : TTA TTok as.2 := htt.congr hps han
+    generalize abort L (incrementNodes L s) = as at h12 hps han hatt hat ⊢
+    have htt' : TTA TTok t0 as.2 := htt.congr hps han hatt
     split
     · next hab => exact ⟨htt', fun hna => by rw [← hat, hab] at hna; cases hna⟩
     · split
